@@ -186,7 +186,7 @@ def combine_and_save_opb(filename: Path,
             elif request.assertion_type is AssertionType.LT:
                 comparison = ' <= ' + str(request.k - 1)
             elif request.assertion_type is AssertionType.GT:
-                comparison = ' >= ' + str(request.k - 1)
+                comparison = ' >= ' + str(request.k + 1)
             else:
                 raise ValueError(f"invalid assertion type: {request.assertion_type}")
             opb_file.write('\n' + ' '.join(map(lambda x :  '+1 v' + str(x), request.boolean_values)) \
